@@ -142,40 +142,6 @@ Ltac sim :=
   | |- _ => leaf
   end.
 
-Ltac sim_dbg :=
-  cbv zeta;
-  lazymatch goal with
-  | |- msim _ _ _ _ (mbind (mread _) _) _ => eapply msim_read; [solve_ritem | cbv beta; sim_dbg]
-  | |- msim _ _ _ _ (mbind (mreadl _) _) _ => eapply msim_readl; [eassumption | cbv beta; sim_dbg]
-  | |- msim _ _ _ _ (mbind (malloc _) _) _ =>
-      eapply msim_alloc;
-      [ let h := fresh "h" in let P := fresh "P" in intros h P; transport P; solve_alloc
-      | let h := fresh "h" in let r := fresh "r" in let P := fresh "P" in let Hr := fresh "Hr" in
-        intros h r P Hr; transport P; clear P; sim_dbg ]
-  | |- msim _ _ _ _ (mbind (fun s1 => match _ with pair _ _ => _ end) _) _ => idtac
-  | |- msim _ _ _ _ (mbind _ _) (bind _ _) =>
-      eapply msim_bind;
-      [ first [leaf | sim_dbg]
-      | let h := fresh "h" in let a := fresh "a" in let b := fresh "b" in
-        let P := fresh "P" in let HR := fresh "HR" in
-        intros h a b P HR; transport P; clear P; process HR; sim_dbg ]
-  | |- msim _ _ _ _ (if ?c then _ else _) (if ?c then _ else _) =>
-      let E := fresh "E" in destruct c eqn:E; sim_dbg
-  | |- msim _ _ _ _ (match ?x with inl _ => _ | inr _ => _ end) (match ?x with inl _ => _ | inr _ => _ end) =>
-      destruct x; sim_dbg
-  | |- msim ?m ?c _ _ (match mc_checkoutput _ with None => _ | Some _ => _ end) _ =>
-      let h := fresh "h" in let P := fresh "P" in let Hc := fresh "Hc" in let Eco := fresh "Eco" in
-      apply msim_wfcx; intros h P Hc; transport P; clear P;
-      assert (Eco : cx_checkoutput c = mc_checkoutput m) by (rewrite <- (proj1 Hc); reflexivity);
-      rewrite Eco; clear Eco Hc; destruct (mc_checkoutput m); sim_dbg
-  | |- msim _ _ _ _ (match ?l with nil => _ | cons _ _ => _ end) _ =>
-      let x := fresh "x" in let r := fresh "r" in
-      destruct l as [|x r]; cbn [map] in *;
-      [| match goal with H : Forall2 (ritem _) (x :: r) _ |- _ => apply Forall2_cons_inv in H; destruct H end ];
-      sim
-  | |- _ => try leaf
-  end.
-
 Ltac op_start := intros; cbv beta iota delta [mexec_op exec_op]; unfold nlen, dlen.
 
 Section Ops.
